@@ -20,7 +20,7 @@ SC == [N |-> H.N, dur |-> H.dur, vod0 |-> H.vod0, TS |-> H.TS, loopMS |-> H.loop
        tsbd |-> H.tsbd, ato |-> H.ato, snr |-> H.snr]
 NowU(x) == [w |-> x[1], r |-> x[2] * H.TS]
 None == [ok |-> FALSE, after |-> FALSE, E |-> <<>>, first |-> <<-1, -1>>, last |-> <<-1, -1>>, now |-> TZero, pt |-> TZero, dig |-> "",
-         hasSn |-> FALSE, snp |-> <<0, 0>>, tmplD |-> 0, tmplTS |-> 1, atoDecl |-> 0]
+         hasSn |-> FALSE, snp |-> <<0, 0>>, tmplD |-> 0, tmplTS |-> 1, atoDecl |-> 0, pids |-> <<"", "">>]
 
 Init == l = 1 /\ h = 1 /\ cur = None /\ prev = None /\ MonitorInit
 Hdr == /\ e.ev = "hdr"
@@ -37,7 +37,8 @@ Mpd == /\ e.ev = "mpd"
           ELSE
           \* (E, first, last are bound by \E over singleton sets: TLC evaluates a bound value once, whereas a LET definition
           \*  is re-evaluated at every use - the expansion of a 60 s timeline dozens of times per event)
-          \E E \in {IF Timeline THEN Expand(SC, e.S) ELSE <<>>} :
+          \* (multi-period timeline MPDs: E is the concatenation over the Periods; it only serves to tell WHERE an MPD changed)
+          \E E \in {IF H.mode \in {"time", "tlnr"} THEN Expand(SC, e.S) ELSE <<>>} :
           \* audio follows the video grid (C03): no own grid here, only contiguity and the fetch clauses
           \E first \in {IF Len(E) > 0 /\ H.kind # "audio" THEN IdxOfStart(SC, E[1].t) ELSE <<-1, -1>>} :
           \E last \in {IF Len(E) > 0 /\ first[1] >= 0 THEN Plus(SC, first, Len(E) - 1) ELSE <<-1, -1>>} :
@@ -80,7 +81,10 @@ Mpd == /\ e.ev = "mpd"
                     /\ Clause("C05.pt_mono", TLeq(prev.pt, pt), <<"pt_before", prev.pt, "pt", pt>>)
                     \* (the switch to a static MPD at the stop time is a change by design: not judged here)
                     /\ Clause("C05.pt_same_content", (TEq(prev.pt, pt) /\ prev.after = after) => prev.dig = e.dig,
-                              <<"pt", e.pt, "first_changed", prev.first # first, "last_changed", prev.last # last>>)
+                              \* (multi-period MPDs: whether the oldest / the newest listed Period is another one than before)
+                              <<"pt", e.pt, "first_changed", prev.first # first, "last_changed", prev.last # last,
+                                "oldest_period_changed", prev.pids[1] # Get(e, "pids", <<"", "">>)[1],
+                                "newest_period_changed", prev.pids[2] # Get(e, "pids", <<"", "">>)[2]>>)
                     /\ Clause("C05.number_static", (H.mode = "number" /\ ~H.multi /\ prev.after = after) => prev.dig = e.dig, "Number-template MPD changed")
                     \* C05.stop: once static, the MPD does not change any more
                     /\ Clause("C05.static_frozen", (prev.after /\ after) => prev.dig = e.dig, "static MPD changed after the stop time")
@@ -94,7 +98,8 @@ Mpd == /\ e.ev = "mpd"
                                  IN TLt(TSub(P(SC), a0, pt), MsPair(SC, 1)) /\ TLt(TSub(P(SC), pt, a0), MsPair(SC, 1)),
                          <<"pt", e.pt, "avail_of_last", IF Len(E) > 0 /\ first[1] >= 0 THEN Avail(SC, last[1], last[2]) ELSE TZero>>)
                /\ cur' = [ok |-> TRUE, after |-> after, E |-> E, first |-> first, last |-> last, now |-> now, pt |-> pt, dig |-> e.dig,
-                          hasSn |-> e.hasSn, snp |-> e.snp, tmplD |-> e.tmplD, tmplTS |-> e.tmplTS, atoDecl |-> e.atoDecl]
+                          hasSn |-> e.hasSn, snp |-> e.snp, tmplD |-> e.tmplD, tmplTS |-> e.tmplTS, atoDecl |-> e.atoDecl,
+                          pids |-> Get(e, "pids", <<"", "">>)]
                /\ prev' = cur'
        /\ UNCHANGED h
 
